@@ -250,9 +250,14 @@ def run(chk: common.Check) -> None:
     # SIGINT while the main thread sits at a prompt (inside Nextline's trace function): the reported KeyboardInterrupt is cut back to user frames
     rs.append({'statement': 'import time\nprint("start")\nx = 1\ny = 2\nz = 3\n', 'policy': {'kind': 'all', 'command': 'next'}, 'timeout': 40,
                'signal': {'kind': 'interrupt', 'at_prompt': 3}, 'expect_exc': 'KeyboardInterrupt', 'expect_out': 'start\n'})
+    # the script ends while thousands of its events are still on their way to the main process: the result is still the script's
+    rs.append({'statement': "def main():\n    s = 0\n    for i in range(3000):\n        s += i\n    return s\n", 'statement_kind': 'callable',
+               'mode': 'continuous', 'trace_modules': True, 'timeout': 90, 'expect_ret': 4498500, 'expect_out': ''})
+    rs.append({'statement': "s = 0\nfor i in range(3000):\n    s += i\nraise ValueError(f'done: {s}')\n", 'mode': 'continuous', 'timeout': 90,
+               'expect_exc': 'ValueError: done: 4498500', 'expect_out': ''})
     rs.append({'statement': "print('code object')\n", 'statement_kind': 'code', 'policy': {'kind': 'all', 'command': 'next'}, 'timeout': 40,
                'expect_out': 'code object\n'})
-    for r in common.real_runs(rs, jobs=5, hard_timeout=90):
+    for r in common.real_runs(rs, jobs=7, hard_timeout=150):
         sp = r['spec']
         chk.cov.case(('real', sp.get('statement_kind', 'str'), repr(sp.get('signal'))))
         chk.cov.count('form', 'real-' + sp.get('statement_kind', 'str'))
